@@ -128,7 +128,7 @@ class SdoClient(SdoBase):
             # Found a matching variable in OD
             # If this is a data type (string, domain etc) the size is
             # unknown anyway so keep the data as is
-            if var.data_type not in objectdictionary.DATA_TYPES:
+            if var.data_type in var.STRUCT_TYPES:
                 # Get the size in bytes for this variable
                 var_size = len(var) // 8
                 if response_size is None or var_size < response_size:
